@@ -11,6 +11,7 @@ Nothing is executed: call results are opaque atoms constrained by contracts.
 import itertools
 import re
 from fractions import Fraction
+from math import gcd
 
 import lp
 import mir
@@ -90,15 +91,18 @@ class Aff:
         return " + ".join(parts + [str(self.k)])
 
 
+tighten = lp.tighten
+
+
 def le(a, b):
     """constraint a <= b as (coeffs, const)"""
     d = a - b
-    return (d.co, d.k)
+    return tighten(d.co, d.k)
 
 
 def lt(a, b):
     d = a - b
-    return (d.co, d.k + 1)
+    return tighten(d.co, d.k + 1)
 
 
 def const(v):
@@ -342,8 +346,9 @@ class Num:
                 if a.is_const() and b is not None and b.is_const():
                     return const(int(a.k) >> int(b.k))
                 if b is not None and b.is_const() and 0 <= b.k < 128:
+                    # x >> k is x / 2^k (unsigned): the same quotient atom as the division, so that both spellings meet
                     c = 1 << int(b.k)
-                    return self.atom(t, lambda r: [le(r.scale(c), a), le(a, r.scale(c) + const(c - 1)), le(const(0), r)])
+                    return self.atom(("div", t[2], c), lambda q: [le(q.scale(c), a), le(a, q.scale(c) + const(c - 1)), le(const(0), q)])
                 return self.atom(t, lambda r: [le(r, a), le(const(0), r)])
             if op in ("Shl", "ShlUnchecked"):
                 a, b = self.aff(t[2]), self.aff(t[3])
@@ -357,6 +362,12 @@ class Num:
                 ex = []
                 if a is None and b is None:
                     return None
+                for x, xa, m in ((t[2], a, b), (t[3], b, a)):
+                    # x & (2^k - 1) is x % 2^k
+                    if m is not None and m.is_const() and xa is not None and not xa.is_const() and m.k > 0 and (int(m.k) & (int(m.k) + 1)) == 0:
+                        c = int(m.k) + 1
+                        q = self.atom(("div", x, c), lambda q: [le(q.scale(c), xa), le(xa, q.scale(c) + const(c - 1)), le(const(0), q)])
+                        return xa - q.scale(c)
                 return self.atom(t, lambda r: ([le(r, a)] if a is not None else []) + ([le(r, b)] if b is not None else []))
             if op in ("BitOr", "BitXor"):
                 return self.atom(t) if self.cfg.width(self.ty_of(t)) else None
@@ -730,6 +741,13 @@ class NumWalker(Walker):
             r = c["fork"](self, st, t, args)
             if r is not None:
                 return r
+        if self.facts is not None and self.depth < 6:
+            ct = self.closure_target(st, fname, args)
+            if ct is not None:
+                return self.inline_call(st, ct[0], ct[1])
+            af = self.adapter_forks(st, fname, args)
+            if af is not None:
+                return af
         if self.inline and self.facts is not None and self.depth < 6:
             for nm in (resolved, fname):
                 if nm and (self.inline(nm) or self.private_helper(nm)):
@@ -937,11 +955,29 @@ class NumWalker(Walker):
                 cs = {canon(c) for c in self.store_of(p.state)}
                 common = cs if common is None else (common & cs)
             entry_store = self.full_store(st)
+            pre_havocs = None
             for co_items, k0 in sorted(common or [], key=repr):
                 co = dict(co_items)
                 if trip not in co:
                     continue
-                if any(not self.atom_is_head_level(a, g, st["ncall"]) for a in co):
+                if pre_havocs is None:
+                    pre_havocs = set()
+
+                    def collect(t, depth=0):
+                        if isinstance(t, tuple) and t and depth < 60:
+                            if t[0] == "havoc":
+                                pre_havocs.add(t)
+                            for x in t:
+                                collect(x, depth + 1)
+                    for v in base_env.values():
+                        collect(v)
+                    for k_, v in base_mem.items():
+                        collect(k_)
+                        collect(v)
+                    for c in entry_store:
+                        for a in c[0]:
+                            collect(a)
+                if any(not self.atom_is_head_level(a, g, st["ncall"], pre_havocs) for a in co):
                     continue
                 cand = (co, k0 - co[trip])
                 at_entry = ({a: c for a, c in co.items() if a != trip}, cand[1])
@@ -956,7 +992,12 @@ class NumWalker(Walker):
             for k, v in cur_mem.items():
                 if isinstance(v, tuple) and v and v[0] == "havoc" and num.aff(v) is not None:
                     hv.append((v, base_mem.get(k, k), ("mem", k)))
+            # the trip counter takes part as a variable that every iteration increases by one (x - c*k unchanged)
+            hv.append((trip, ("const", 0, "usize"), ("trip",)))
+
             def back_val(p, getter):
+                if getter[0] == "trip":
+                    return ("binop", "Add", trip, ("const", 1, "usize"))
                 return p.state["env"].get(getter[1]) if getter[0] == "env" else p.state["mem"].get(getter[1], getter[1])
             # linear combinations sum c_i*x_i left unchanged by every iteration: null space of the matrix of deltas
             hv = [h for h in hv if all(num.aff(back_val(p, h[2])) is not None for p in bk)]
@@ -1049,13 +1090,14 @@ class NumWalker(Walker):
                            "bounds": ["%s %s %d" % (mir.fmt(c[0]), "<=" if c[1] == "le" else ">=", c[2]) for c in cands]}
         self.continue_after(res, stack, record_inner=True)
 
-    def atom_is_head_level(self, a, g, ncall=0):
+    def atom_is_head_level(self, a, g, ncall=0, pre_havocs=()):
         """atoms that exist before the loop body runs: arguments, entry fields, configuration constants and
         results of calls made before the loop (call ordinal <= the ordinal at loop entry)"""
         if not isinstance(a, tuple):
             return False
         head = a[0] == "havoc" and len(a) > 3
-        if mir.mentions(a, lambda x: (x[0] == "ret" and x[1] > ncall) or (x[0] == "havoc")):
+        # (an unknown introduced before the loop was entered has one value throughout the loop)
+        if mir.mentions(a, lambda x: (x[0] == "ret" and x[1] > ncall) or (x[0] == "havoc" and x not in pre_havocs)):
             return False
         return True
 
